@@ -79,7 +79,7 @@ fn draw_csid(ctx: &mut Ctx, k: &BKnobs, avoid: &[u32]) -> u32 {
 }
 
 fn draw_chunk_size(ctx: &mut Ctx) -> u32 {
-    let k = ctx.ch.weighted("op.arg.csz", &[3, 3, 2, 2, 2, 2, 3, 2, 1, 2]);
+    let k = ctx.ch.weighted("op.arg.csz", &[3, 3, 2, 2, 2, 2, 3, 2, 1, 2, 2, 1]);
     match k {
         0 => 128,
         1 => 1,
@@ -90,7 +90,9 @@ fn draw_chunk_size(ctx: &mut Ctx) -> u32 {
         6 => ctx.ch.range("op.arg.cszv", 1, 300) as u32,
         7 => 4096,
         8 => 65536,
-        _ => 0x7FFF_FFFF,
+        9 => 0x7FFF_FFFF,
+        10 => *ctx.ch.pick("op.arg.cszv", &[3u32, 4, 255, 256, 257, 65535, 65537, 16_777_215, 16_777_216, 0x7FFF_FFFE]),
+        _ => ctx.ch.range("op.arg.cszv", 1, 0x7FFF_FFFF) as u32,
     }
 }
 
